@@ -7,6 +7,7 @@ Driver for C17 (stateful: one reporter + scope per `begin`).  Lines:
   `begin <s|h> <ret|panic> <default bounds f64s>`                      → ok
   `use <kind…> <name hex> <tags k:v,…> => <outcome> <callbacks> <error classes>`
         kind: `c` | `g` | `t` | `ts` | `th` | `hv <bounds f64s>` | `hd <ns:secsbits;…> <maxsecs bits>`
+              | `rc` | `rg` (`RegisterCounter` / `RegisterGauge`, then `With(tags)` by the caller)
         outcome: `usable` | `noop` | `cbpanic` | `regerr` | `nilvec` | `nilpanic` | `panic`
         error classes: `prev` | `already` | `other`, `;`-separated, `-` for none
   `op <id> inc <n>` | `op <id> upd <bits>` | `op <id> rec <secs bits>` | `op <id> sv <bits>` | `op <id> sd <ns>`  `=> ok|panic`
@@ -193,6 +194,8 @@ def parseKind : List String → Option (UseKind × List String)
   | "t" :: r => some (.timer, r)
   | "ts" :: r => some (.timerAs false, r)
   | "th" :: r => some (.timerAs true, r)
+  | "rc" :: r => some (.counterAs, r)
+  | "rg" :: r => some (.gaugeAs, r)
   | "hv" :: spec :: r => do pure (.histogram (.values (← f64List spec)), r)
   | "hd" :: spec :: m :: r => do
     let s ← parseList parseDurBound spec
@@ -223,6 +226,8 @@ def kindMatches (m : Metric) (e : LEv) : Bool :=
   | .counter _ _, .inc _ => true
   | .gauge _ _ _, .update _ => true
   | .timer _, .record _ => true
+  | .rawCounter _, .inc _ => true
+  | .rawGauge _, .update _ => true
   | .histogram _ spec _, .sample s => Spec.C17.sampleFits spec s
   | _, _ => false
 
